@@ -71,7 +71,11 @@ class Report:
         s.notes.append(text)
 
     def floor(s, name, count):
-        """fail closed when fewer instances than counted by hand on the pinned tree"""
+        """fail closed when a rule loses its anchors.  The recorded number is what was counted on
+        the tree the rule was confirmed on; the purpose is to notice a rule that went (nearly)
+        vacuous -- a renamed anchor, a changed MIR shape -- not to freeze the code: a rewrite of
+        one function legitimately moves a count by a few.  So the check breaks when the count
+        falls below 70 % of the recorded one (and always when it reaches zero)."""
         s.floor_counts[name] = count
         key = s.rule + "." + name
         if s._record is not None:
@@ -80,8 +84,8 @@ class Report:
         want = s._floors.get(key)
         if want is None:
             s.broken.append("no floor recorded for %s (count now %d)" % (key, count))
-        elif count < want:
-            s.broken.append("instance count below floor: %s = %d < %d" % (key, count, want))
+        elif count < max(1 if want > 0 else 0, (want * 7) // 10):
+            s.broken.append("instance count below floor: %s = %d < 70%% of %d" % (key, count, want))
 
 
 class Ctx:
